@@ -34,26 +34,41 @@ func c01gWrappedBootstrapValues(c *eng.Ctx) {
 		if f == nil {
 			continue
 		}
-		puts := eng.Calls(f, `<physical\.Backend>\.Put$`)
+		// the raw write: in f, through a bound method value, or inside a closure / same-package helper
+		effs := kMayEffs(kMaySites(f, `^<physical\.\w+>\.Put$`, 2))
 		c.Clause("R5", "C01.6")
-		if !c.Floor(f, "raw write of a seal-wrapped bootstrap record", len(puts), 1) {
+		if !c.Floor(f, "raw write of a seal-wrapped bootstrap record", len(effs), 1) {
 			continue
 		}
-		for _, p := range puts {
-			a := p.Common().Args
-			vals := eng.StructLitField(a[len(a)-1], "Value")
+		fns := map[*ssa.Function]bool{f: true}
+		for _, e := range effs {
+			fns[e.Fn] = true
+			ent, fr := nfResolveParam(e.Call.Args[len(e.Call.Args)-1], e.Fr)
+			if _, isParam := ent.(*ssa.Parameter); isParam {
+				c.Undecided(f, "seal-wrapped value", e.Call.In.Pos(), "the entry written raw is a parameter that cannot be followed to its argument (moved? the rule cannot be evaluated)")
+				continue
+			}
+			if lf := nfValueFn(ent); lf != nil {
+				fns[lf] = true
+			}
+			vals := eng.StructLitField(ent, "Value")
 			if len(vals) == 0 {
-				c.Violation(f, "seal-wrapped value", p.Pos(), "the entry written raw is not a local literal: its value cannot be pinned to the seal's ciphertext", nil)
+				c.Violation(f, "seal-wrapped value", e.Call.In.Pos(), "the entry written raw is not a local literal: its value cannot be pinned to the seal's ciphertext", nil)
 			}
 			for _, v := range vals {
-				c.Prov(f, "value of the seal-wrapped bootstrap record", p, v, `^call:google\.golang\.org/protobuf/proto\.Marshal#0$`)
+				nfProv(c, f, "value of the seal-wrapped bootstrap record", e.Call.In, v, fr, `^call:google\.golang\.org/protobuf/proto\.Marshal#0$`)
 			}
 		}
-		for _, m := range eng.Calls(f, `^google\.golang\.org/protobuf/proto\.Marshal$`) {
-			c.Prov(f, "message marshalled into the bootstrap record", m, m.Common().Args[0], `^call:`+encBase+`#0$`)
+		nm := 0
+		for g := range fns {
+			for _, m := range kCalls(g, `^google\.golang\.org/protobuf/proto\.Marshal$`) {
+				nm++
+				nfProv(c, f, "message marshalled into the bootstrap record", m, kArgs(m)[0], nil, `^call:`+encBase+`#0$`)
+			}
 		}
+		c.Floor(f, "proto.Marshal of the seal's ciphertext", nm, 1)
 		c.Clause("R2", "C01.6")
-		c.Cut(f, "raw write of the wrapped record", instrsOf(puts), eng.GCallOK(f, encBase+`$`), nil)
+		kCutEffects(c, f, "raw write of the wrapped record", effs, encBase+`$`)
 	}
 }
 
@@ -67,13 +82,14 @@ func c01gRekeyBackupValues(c *eng.Ctx) {
 		if f == nil {
 			continue
 		}
-		puts := eng.Calls(f, `<physical\.Backend>\.Put$`)
-		encs := eng.Calls(f, encShares)
+		// the raw write: in f, through a bound method value, or inside a closure / same-package helper
+		effs := kMayEffs(kMaySites(f, `^<physical\.\w+>\.Put$`, 2))
+		encs := kCalls(f, encShares)
 		c.Clause("R2", "C01.6")
-		if !c.Floor(f, "raw write of the key backup", len(puts), 1) || !c.Floor(f, "pgpkeys.EncryptShares", len(encs), 1) {
+		if !c.Floor(f, "raw write of the key backup", len(effs), 1) || !c.Floor(f, "pgpkeys.EncryptShares", len(encs), 1) {
 			continue
 		}
-		c.Cut(f, "raw write of the key backup", instrsOf(puts), eng.GCallOK(f, encShares), nil)
+		kCutEffects(c, f, "raw write of the key backup", effs, encShares)
 		// the shares field is overwritten with the ciphertext and not again afterwards
 		c.Clause("R5", "C01.6")
 		var encStores, otherStores []ssa.Instruction
@@ -95,12 +111,12 @@ func c01gRekeyBackupValues(c *eng.Ctx) {
 		}
 		reach := eng.ReachableBlocks(f, okEdges)
 		n := 0
-		for _, h := range eng.Calls(f, `^encoding/hex\.EncodeToString$`) {
+		for _, h := range kCalls(f, `^encoding/hex\.EncodeToString$`) {
 			if !reach[h.Block()] {
 				continue
 			}
 			n++
-			v := c01gUnwrapBuffer(h.Common().Args[0])
+			v := c01gUnwrapBuffer(kArgs(h)[0])
 			c.Prov(f, "share placed in the raw key backup", h, v, `^op:.*\.SecretShares\[`)
 		}
 		c.Floor(f, "shares hex-encoded into the backup after PGP encryption", n, 1)
@@ -141,8 +157,8 @@ func c01gHeaderSlices(c *eng.Ctx) {
 		if !eng.InPkg(f, "barrier") || done[eng.FuncName(f)] {
 			continue
 		}
-		for _, u := range eng.Calls(f, `\(encoding/binary\.bigEndian\)\.Uint32$`) {
-			a := u.Common().Args
+		for _, u := range kCalls(f, `\(encoding/binary\.bigEndian\)\.Uint32$`) {
+			a := kArgs(u)
 			m := c01gHead.FindStringSubmatch(eng.Expr(a[len(a)-1]))
 			if m == nil {
 				continue
@@ -160,19 +176,19 @@ func c01gRawPathAgreement(c *eng.Ctx) {
 	c.Clause("R7", "C01.5")
 	n := 0
 	for _, s := range c.P.FindCalls(mustStatic(c, "vault.(*RawBackend).storageByPath"), nil) {
-		classified := s.Call.Common().Args[len(s.Call.Common().Args)-1]
+		classified := kArgs(s.Call)[len(kArgs(s.Call))-1]
 		for _, in := range eng.Instrs(s.Fn, func(in ssa.Instruction) bool {
 			ci, ok := in.(ssa.CallInstruction)
-			return ok && ci.Common().IsInvoke() && strings.HasPrefix(eng.CalleeName(ci.Common()), "<vault.StorageAccess>.")
+			return ok && kMethod(ci) != "" && strings.HasPrefix(kName(ci), "<vault.StorageAccess>.")
 		}) {
 			op := in.(ssa.CallInstruction)
-			ex, ok := op.Common().Value.(*ssa.Extract)
+			ex, ok := kRecv(op).(*ssa.Extract)
 			if !ok || ex.Tuple != s.Call.Value() {
 				continue
 			}
 			n++
-			site := "raw " + op.Common().Method.Name() + " uses the key it classified"
-			if key := op.Common().Args[1]; key == classified || eng.ExprDeep(key) == eng.ExprDeep(classified) {
+			site := "raw " + kMethod(op) + " uses the key it classified"
+			if key := kArgs(op)[1]; key == classified || eng.ExprDeep(key) == eng.ExprDeep(classified) {
 				c.OK(s.Fn, site, op.Pos(), eng.Expr(key))
 			} else {
 				c.Violation(s.Fn, site, op.Pos(), "the accessor was chosen for "+eng.ExprDeep(classified)+" but is used on "+eng.ExprDeep(key)+": the unencrypted accessor of a seal-config key can be steered to another key", nil)
@@ -197,6 +213,7 @@ func c01gStorageAccessUsers(c *eng.Ctx) {
 			inv = append(inv, s)
 		}
 	}
+	inv = append(inv, kBoundIfaceCalls(c, nil, `^<vault\.StorageAccess>\.(Put|Delete)$`)...)
 	c.Clause("R1", "C01.5")
 	c.CallerTable("StorageAccess.Put/Delete (possibly unencrypted accessor)", inv, map[string]string{
 		"vault.(*defaultSeal).SetBarrierConfig": "barrier seal configuration",
@@ -222,7 +239,7 @@ func c01gStorageAccessUsers(c *eng.Ctx) {
 		if !ok {
 			continue
 		}
-		c.Prov(s.Fn, "key written through the seal's configuration accessor", s.Call, s.Call.Common().Args[1], `^const:"`+regexp.QuoteMeta(k)+`"$`, `^field:d\.metaPrefix$`)
+		c.Prov(s.Fn, "key written through the seal's configuration accessor", s.Call, kArgs(s.Call)[1], `^const:"`+regexp.QuoteMeta(k)+`"$`, `^field:d\.metaPrefix$`)
 	}
 }
 
@@ -260,7 +277,7 @@ func c01gNotFoundOnlyWhenAbsent(c *eng.Ctx) {
 		if !eng.InPkg(f, "barrier") || f.Signature.Results().Len() != 2 || structTypeName(f.Signature.Results().At(0).Type()) != "logical.StorageEntry" {
 			continue
 		}
-		if len(eng.Calls(f, `<physical\.Backend>\.Get$`)) == 0 {
+		if len(kCalls(f, `<physical\.Backend>\.Get$`)) == 0 {
 			continue
 		}
 		withValue := map[ssa.Instruction]bool{}
@@ -308,7 +325,7 @@ func keyringZeroizeOwnership(c *eng.Ctx, clause string) {
 				site := "SetRootKey gives its result its own root-key bytes"
 				_, fresh := s.Val.(*ssa.MakeSlice)
 				_, toRecv := s.Addr.(*ssa.FieldAddr)
-				if fresh && toRecv && len(eng.Calls(f, `^copy$`)) > 0 {
+				if fresh && toRecv && len(kCalls(f, `^copy$`)) > 0 {
 					c.OK(f, site, s.Pos(), "freshly allocated slice filled by copy")
 				} else {
 					copies = false
